@@ -111,7 +111,11 @@ pub fn check_batches(c: &BatchCase) -> CaseResult {
                 let rb: Vec<crate::oracle::geom::RBox> = dets.iter().map(|d| d.b.rbox()).collect();
                 for (i, r) in recs.iter().enumerate() {
                     if let Some(v) = tr.view(r.id) {
-                        if let Some(stored) = v.gallery.first().and_then(|g| g.own_area) {
+                        let stored = match v.gallery.first().and_then(|g| g.own_area) {
+                            Some(s) => s,
+                            None => return Err(Fail::new("batch-own-area-lost", format!("batch {} scene {}: detection {} is stored without an own-area share although an own-area threshold is configured", bi, scene, i))),
+                        };
+                        {
                             let want = crate::oracle::geom::exclusive_area(&rb, i) / rb[i].area();
                             ensure!((stored as f64 - want).abs() <= 2e-3, "batch-own-area", "batch {} scene {}: detection {} is stored with own-area share {} but {} of it is uncovered by the other detections of its scene", bi, scene, i, stored, want);
                         }
@@ -131,6 +135,12 @@ pub fn check_batches(c: &BatchCase) -> CaseResult {
     };
     for (bi, b) in batches.iter().enumerate() {
         if b.is_empty() {
+            // an empty batch is a legal submission: it delivers nothing and must not disturb the
+            // batches still in flight
+            if let Some(p) = tr.submit_batch(b) {
+                let r = p.collect();
+                ensure!(r.is_empty(), "batch-result-count", "batch {}: an empty batch delivered {} results", bi, r.len());
+            }
             continue;
         }
         // the plan of the previous (pipelined) batch stays in force until the next one is installed
